@@ -1762,43 +1762,70 @@ def extra_checks(c, rebound, clib, d, syss, ref):
                         dict(system="m=1; m=1e-4 a=1 e=.01; m=1e-4 a=1.07 e=.01 f=.9 inc=.01; m=1e-3 a=4 e=.05 f=1", integrator=integ, t=Te, errors=[e4, e2], whfast=w4))
     res["hybrid_close_encounter_error_flagged"] = {"%s/dt=%g" % k: (float("%.2e" % v[0]), v[1]) for k, v in eerr.items()}
     # ---------------- user ODEs carried along by an N-body integrator other than BS (the sub-stepping loop of reb_integrator_part2,
-    #                  integrator.c): polynomial right-hand sides of degree <= 3 are exact at every tolerance, both directions
+    #                  integrator.c; theorem c01_user_ode_interval): factors  carrier (fixed-step families AND the adaptive ones: IAS15
+    #                  with epsilon > 0 in three adaptive modes, where r->dt != r->dt_last_done after every step)  x  call pattern  x
+    #                  dt sign  x  degree.  A polynomial right-hand side of degree <= 3 is integrated exactly whatever the step sizes
+    #                  are, as long as the sub-steps tile the time axis: the oracle does not depend on the step sequence.
+    carriers = [("whfast", None), ("leapfrog", None), ("saba", None), ("eos", None), ("mercurius", None), ("janus", None), ("trace", None),
+                ("ias15/fixed", lambda s_: setattr(s_.ri_ias15, "epsilon", 0)),
+                ("ias15/adaptive-default", lambda s_: None),
+                ("ias15/adaptive-eps1e-6-mode0", lambda s_: (setattr(s_.ri_ias15, "epsilon", 1e-6), setattr(s_.ri_ias15, "adaptive_mode", 0))),
+                ("ias15/adaptive-eps1e-4-mode3", lambda s_: (setattr(s_.ri_ias15, "epsilon", 1e-4), setattr(s_.ri_ias15, "adaptive_mode", 3)))]
+    patterns = ["one_integrate_exact0", "one_integrate_exact1", "three_integrates", "steps_then_integrate"]
     worst_ode = 0.0
-    for integ in ("whfast", "leapfrog", "ias15", "mercurius", "saba", "eos", "janus", "trace"):
-        for sg in ((1, -1) if integ != "trace" else (1,)):
-            for dgr in (1, 3):
-                sim = make_sim(rebound, bysys["two_planets"])
-                sim.integrator = integ
-                sim.ri_ias15.epsilon = 0          # fixed steps also for IAS15
-                sim.ri_bs.eps_rel = 1e-6
-                sim.ri_bs.eps_abs = 1e-6
-                ode = sim.create_ode(length=1, needs_nbody=False)
+    ode_pairs = set()
+    combos = [(ca, pt, sg, dgr) for ca in carriers for pt in patterns for sg in (1, -1) for dgr in (1, 3)]
+    for j, (ca, pt, sg, dgr) in enumerate(combos):
+        if ca[0] == "trace" and sg < 0:
+            continue
+        if not c.thorough and j % 3 != c.seed % 3 and not ca[0].startswith("ias15/adaptive"):
+            continue              # quick: a third of the fixed-step combinations per seed, every adaptive one
+        sim = make_sim(rebound, bysys["heavy3" if ca[0].startswith("ias15") else "two_planets"])
+        sim.integrator = ca[0].split("/")[0]
+        if ca[1]:
+            ca[1](sim)
+        sim.ri_bs.eps_rel = 1e-6
+        sim.ri_bs.eps_abs = 1e-6
+        ode = sim.create_ode(length=1, needs_nbody=False)
 
-                def rhs(o, yDot, y, t, dgr=dgr):
-                    yDot[0] = (t - 0.3) ** dgr
-                ode.derivatives = rhs
-                ode.y[0] = 0.7
-                sim.dt = sg * 0.07
-                sim.integrate(sg * 2.0, exact_finish_time=0)
-                exact = 0.7 + ((sim.t - 0.3) ** (dgr + 1) - (-0.3) ** (dgr + 1)) / (dgr + 1)
-                rel = abs(ode.y[0] - exact) / abs(exact)
-                worst_ode = max(worst_ode, rel)
-                c.count(("ode-along", integ, sg, dgr))
-                dimx("user_ode_with_non_bs_integrator")
-                if not rel <= 1e-12:
-                    key = "user-ode:%s:polynomial-exactness" % integ
-                    if integ == "janus" and ode.y[0] == 0.7:
-                        key = "C01:janus-user-ode-never-integrated"
-                    elif rel > 1e-3:
-                        # signature of the one-step time shift: the result is (at least ten times) closer to the solution integrated over [dt, t+dt]
-                        tt = sim.t + sim.dt
-                        shifted = 0.7 + ((tt - 0.3) ** (dgr + 1) - (sim.dt - 0.3) ** (dgr + 1)) / (dgr + 1)
-                        if abs(ode.y[0] - shifted) * 10 <= abs(ode.y[0] - exact):
-                            key = "C01:user-ode-time-shift-with-nbody-integrators"
-                    c.violation(key, "user ODE y' = (t-0.3)^%d carried by %s (dt=%g): relative error %.2e at t=%g" % (dgr, integ, sim.dt, rel, sim.t),
-                                dict(integrator=integ, degree=dgr, dt=sg * 0.07, relative_error=rel))
+        def rhs(o, yDot, y, t, dgr=dgr):
+            yDot[0] = (t - 0.3) ** dgr
+        ode.derivatives = rhs
+        ode.y[0] = 0.7
+        sim.dt = sg * 0.07
+        Tq = sg * 3.0
+        if pt == "one_integrate_exact0":
+            sim.integrate(Tq, exact_finish_time=0)
+        elif pt == "one_integrate_exact1":
+            sim.integrate(Tq)
+        elif pt == "three_integrates":
+            sim.integrate(0.31 * Tq)
+            sim.integrate(0.64 * Tq, exact_finish_time=0)
+            sim.integrate(Tq)
+        else:
+            sim.steps(7)
+            sim.integrate(Tq)
+        exact = 0.7 + ((sim.t - 0.3) ** (dgr + 1) - (-0.3) ** (dgr + 1)) / (dgr + 1)
+        rel = abs(ode.y[0] - exact) / abs(exact)
+        worst_ode = max(worst_ode, rel)
+        c.count(("ode-along", ca[0], pt, sg, dgr))
+        dimx("user_ode_with_non_bs_integrator")
+        if ca[0].startswith("ias15/adaptive"):
+            dimx("user_ode_with_adaptive_non_bs_integrator")
+        for pr in ((("carrier", ca[0]), ("pattern", pt)), (("carrier", ca[0]), ("dir", sg)), (("carrier", ca[0]), ("degree", dgr)),
+                   (("pattern", pt), ("dir", sg)), (("pattern", pt), ("degree", dgr)), (("dir", sg), ("degree", dgr))):
+            ode_pairs.add(pr)
+        if not rel <= 1e-12:
+            c.violation("user-ode:%s:polynomial-exactness" % ca[0], "user ODE y' = (t-0.3)^%d carried by %s (%s, initial dt=%g): relative error %.2e at t=%g" % (dgr, ca[0], pt, sg * 0.07, rel, sim.t),
+                        dict(carrier=ca[0], pattern=pt, degree=dgr, dt=sg * 0.07, t=sim.t, y=ode.y[0], exact=exact, relative_error=rel,
+                             system="heavy3" if ca[0].startswith("ias15") else "two_planets"))
     used("reb_ode_create"); used("py:create_ode")
     res["user_ode_with_non_bs_integrator_worst_relative_error"] = float("%.2e" % worst_ode)
+    tot_ode = len(carriers) * (len(patterns) + 4) + len(patterns) * 4 + 4 - 1        # minus the excluded (trace, dir -1)
+    if c.thorough and len(ode_pairs) < tot_ode:
+        c.broken.append("pairwise coverage of the user-ODE factors incomplete: %d of %d" % (len(ode_pairs), tot_ode))
+    c.cov["user_ode_pairs"] = {"covered": len(ode_pairs), "total": tot_ode, "factors": {"carrier": len(carriers), "pattern": len(patterns), "dir": 2, "degree": 2},
+                               "excluded": ["carrier trace x dir -1 (F10)"]}
     # ---------------- net external force on the centre of mass: uniform field, exact solution x += g t^2/2
     sd = bysys["two_planets"]
     N = len(sd["bodies"])
@@ -1899,7 +1926,7 @@ print(json.dumps(out))
                   "variational_particles_present", "integrator_switch_midrun", "restore_midrun_copy", "restore_midrun_archive",
                   "moving_centre_of_mass", "com_offset_and_boost", "hyperbolic_member",
                   "trace_peri_mode_on_flagged_pericentre_steps",
-                  "hybrid_integrators_on_flagged_close_encounter_steps", "user_ode_with_non_bs_integrator",
+                  "hybrid_integrators_on_flagged_close_encounter_steps", "user_ode_with_non_bs_integrator", "user_ode_with_adaptive_non_bs_integrator",
                   "user_rewrites_particles_and_sets_recalculation_flags", "user_changes_dt_between_calls", "event_adjacency_next_step",
                   "c_entry_points_as_stepper"]
     for dn in applicable:
